@@ -55,6 +55,10 @@ def impl_replay(job):
         if tsc != 1:
             rec = dict(rec, prog=scale_time(rec["prog"], tsc))
         tp = np.array([f(t) / tsc for t in rec["tp"]])
+        if n_rec % 3 == 2:
+            # the same grid handed over as a non-contiguous view (every second element of a longer array, as a column of a
+            # table or a slice would be): the requested times are the VALUES of the array
+            tp = np.repeat(tp, 2)[::2]
         uniform = len({round(tp[i + 1] - tp[i], 12) for i in range(len(tp) - 1)}) == 1
         res = {"ok": True}
         try:
